@@ -6,6 +6,7 @@ import evalfam
 import stratfam
 import storefam
 import concfam
+import scfam
 from vlib import InfraError
 
 CHECKS = {}
@@ -24,6 +25,8 @@ def replay(ctx, path):
     fam = obj.get("replay_family", "eval")
     if fam == "eval":
         return evalfam.replay(ctx, obj)
+    if fam == "sc":
+        return scfam.replay(ctx, obj)
     if fam in ("lin", "race"):
         return concfam.replay(ctx, obj)
     if fam == "store":
@@ -76,3 +79,8 @@ def c06(ctx):
 @register("C18")
 def c18(ctx):
     return concfam.check_c18(ctx)
+
+
+@register("C19")
+def c19(ctx):
+    return scfam.check_c19(ctx)
